@@ -163,6 +163,15 @@ def judge_populations(case, res, prior, calls, prev_pops=0):
                                                                           thresholds=sorted(thr_in_force)))
         if float(np.asarray(pop.threshold).ravel()[-1]) != float(d.max()):
             return ('C07:population-threshold-not-largest-discrepancy', dict(info, threshold=float(pop.threshold)))
+        # extra requested outputs travel with their particle: d is |S - observed| of the SAME row (all toy models:
+        # scalar summary S = Y, euclidean distance to the observed value)
+        obs = case.get('_observed')
+        for k in (case.get('outputs') or []):
+            if k not in pop.outputs:
+                return ('C07:requested-output-missing-from-population', dict(info, output=k))
+            col = np.asarray(pop.outputs[k], dtype=float).reshape(len(params), -1)[:, 0]
+            if obs is not None and not np.array_equal(np.abs(col - obs), d):
+                return ('C07:extra-output-row-not-of-the-same-particle', dict(info, output=k, col=col.tolist(), d=d.tolist()))
         pr = prior(params)
         ins = prior.support(params)
         if not np.all(ins):
@@ -204,7 +213,11 @@ def run_smc(case):
     models.native_client()
     models.reset_calls()
     m, prior = build(case['model'])
-    smc = elfi.SMC(m, 'd', batch_size=case['bs'], seed=case['seed'], max_parallel_batches=1)
+    if case.get('outputs'):
+        case = dict(case, _observed=float(np.asarray(m.observed['Y']).ravel()[0]))
+    extra = list(case.get('outputs') or [])
+    smc = elfi.SMC(m, 'd', batch_size=case['bs'], seed=case['seed'], max_parallel_batches=1,
+                   **({'output_names': extra} if extra else {}))
     kind, vals = case['schedule']
     try:
         res = smc.sample(case['n_samples'], bar=False, **{kind: list(vals)})
@@ -251,15 +264,15 @@ def replay(case):
 def run(ctx):
     q = ctx.quick
     base = ctx.seed * 1000
-    seeds = [base + k for k in range(2 if q else 6)]
+    seeds = [base + k for k in range(5 if q else 16)]
     scheds = [['thresholds', [2.0]], ['thresholds', [2.0, 1.0]], ['thresholds', [1.5, 1.5]], ['thresholds', [2.0, 1.2, 0.7]],
               ['quantiles', [0.5]], ['quantiles', [0.5, 0.5]], ['quantiles', [1, 0.5, 0.6]]]
     if not q:
         scheds += [['thresholds', [3.0, 2.0, 1.0, 0.8]], ['quantiles', [0.25, 0.75, 0.5]]]
     cases = []
     for model in ('bounded', 'unbounded', 'hier', 'two'):
-        for bs in (1, 3, 4):
-            for n in (2, 4, 6) if q else (2, 3, 4, 6, 9):
+        for bs in (1, 3, 4) if q else (1, 2, 3, 4, 7):
+            for n in (2, 4, 6) if q else (2, 3, 4, 6, 9, 13):
                 for sc in scheds:
                     for s in seeds:
                         cases.append({'kind': 'smc', 'model': model, 'bs': bs, 'n_samples': n, 'schedule': sc, 'seed': s})
@@ -275,6 +288,15 @@ def run(ctx):
             for sc in (['thresholds', [1.0, 0.6]], ['quantiles', [0.5, 0.5]], ['thresholds', [1.5, 1.0, 0.6]]):
                 for s in seeds:
                     cases.append({'kind': 'smc', 'model': 'far', 'bs': bs, 'n_samples': n, 'schedule': sc, 'seed': s})
+    # extra outputs requested with the populations (row consistency of every stored column)
+    for model in ('bounded', 'hier', 'two'):
+        for bs in (1, 3):
+            for n in (3, 5):
+                for sc in (['thresholds', [2.0, 1.0]], ['quantiles', [0.5, 0.5]], ['thresholds', [2.0, 1.2, 0.7]]):
+                    for outs in (['Y'], ['S', 'Y']):
+                        for s in seeds:
+                            cases.append({'kind': 'smc', 'model': model, 'bs': bs, 'n_samples': n, 'schedule': sc,
+                                          'seed': s, 'outputs': outs})
     # continued sampling on the same sampler object
     for model in ('bounded', 'hier'):
         for bs in (1, 3):
